@@ -6,7 +6,7 @@ has one type for its whole life (prefix i/d/b/s), so programs are statically wel
 constant; errors (division by zero, out of range, user exceptions) are injected deliberately and rarely.
 
 Expr:  ("lit", V) ("var", NAME) ("un", OP, e) ("bin", OP, a, b) ("call", name, [e]) ("fcall", NAME, [e])
-       ("member", name, recv, [e])
+       ("member", name, recv, [e]) ("error",) ("item", N, e)        -- `error`, `e@N`
 Stmt:  ("nop",) ("let", NAME, e) ("do", e) ("print", [e]) ("if", [(cond|None, [stmt])]) ("while", e, [stmt])
        ("for", NAME, b, e, step|None, dir, [stmt]) ("begin", [stmt], [(NAME, [stmt])]) ("raise", NAME)
        ("forall", ITER, src, dir, [stmt])
@@ -75,6 +75,10 @@ def expr_src(e):
         return "%s(%s)" % (e[1].lower(), ", ".join(expr_src(a) for a in e[2]))
     if k == "member":
         return "%s.%s(%s)" % (expr_src(e[2]), e[1], ", ".join(expr_src(a) for a in e[3]))
+    if k == "error":
+        return "error"
+    if k == "item":
+        return "%s@%d" % (expr_src(e[2]), e[1])
     raise ValueError(e)
 
 
@@ -94,6 +98,10 @@ def expr_sexp(e):
         return "(fcall %s %s)" % (e[1], " ".join(expr_sexp(a) for a in e[2]))
     if k == "member":
         return "(member %s %s %s)" % (e[1], expr_sexp(e[2]), " ".join(expr_sexp(a) for a in e[3]))
+    if k == "error":
+        return "(error)"
+    if k == "item":
+        return "(item %d %s)" % (e[1], expr_sexp(e[2]))
     raise ValueError(e)
 
 
@@ -122,7 +130,7 @@ def stmt_src(s, ind=0):
         return pad + "do %s;\n" % expr_src(s[1])
     if k == "print":
         # a bare name followed by "(" would read as a function call: parenthesise every item
-        return pad + "print %s;\n" % " ".join("(%s)" % expr_src(e) if e[0] in ("var", "lit") else expr_src(e) for e in s[1])
+        return pad + "print %s;\n" % " ".join("(%s)" % expr_src(e) if e[0] in ("var", "lit", "item") else expr_src(e) for e in s[1])
     if k == "if":
         out = ""
         for n, (c, body) in enumerate(s[1]):
@@ -230,13 +238,24 @@ def S(text):
     return L("S:" + text.encode().hex())
 
 
+def ERRITEM(n):
+    return ("item", n, ("error",))
+
+
+def ERRPRINT(tag):
+    """print "<tag>" error@1 error@2 error@3;"""
+    return ("print", [S(tag + ":"), ERRITEM(1), S("|"), ERRITEM(2), S("|"), ERRITEM(3)])
+
+
 class Gen:
     """Type-directed random program generator (one PRNG; every choice derives from it)."""
 
     EXC = ["E1", "E2", "OUT_OF_RANGE", "DIVIDE_BY_ZERO"]
 
-    def __init__(self, rng, nvars=3, funcs=True, errors=0.08, tables=0.0):
+    def __init__(self, rng, nvars=3, funcs=True, errors=0.08, tables=0.0, errrec=0.0, extras=0.0):
         self.r = rng
+        self.pextras = extras   # share of boolean expressions that are isnull(<expression of any type>); 0: none
+        self.perrrec = errrec   # share of string/integer expressions that read the error record (error@1/@2, error@3); 0: none
         self.ptab = tables      # share of statements working on tables (0: none; tables live in the main program only)
         self.tabs_on = False
         self.locked = set()     # tables being traversed by an enclosing forall: no statement may change them
@@ -263,6 +282,9 @@ class Gen:
                 if vs:
                     return ("var", r.choice(vs))
             return self.literal(t)
+        if self.perrrec and t in "is" and r.random() < self.perrrec:
+            self.count("error-item")
+            return ERRITEM(r.choice([1, 2])) if t == "s" else ERRITEM(3)
         if self.tabs_on and t in "is" and r.random() < 0.12:
             tv = "T%s%d" % (t.upper(), r.randint(1, 2))
             self.count("table-read")
@@ -383,6 +405,9 @@ class Gen:
 
     def expr_b(self, d, sc):
         r = self.r
+        if self.pextras and r.random() < self.pextras:
+            self.count("isnull")
+            return ("call", "isnull", [self.expr(r.choice("idbs"), d, sc)])
         c = r.random()
         if c < 0.4:
             t = r.choice(["i", "i", "d", "s"])
@@ -489,7 +514,15 @@ class Gen:
                 names.remove("OTHERS")
                 names = names + ["OTHERS"] if r.random() < 0.7 else ["OTHERS"] + names
             for nme in names:
-                whens.append((nme, self.block(2, depth - 1, scope, inloop, infunc)))
+                hb = self.block(2, depth - 1, scope, inloop, infunc)
+                if self.perrrec and r.random() < 0.6:
+                    # the clause reports its error first, and (sometimes) again at its end: after whatever inner blocks it ran
+                    self.count("handler-reports-error")
+                    hb = [ERRPRINT("h")] + hb + ([ERRPRINT("h-end")] if r.random() < 0.5 else [])
+                whens.append((nme, hb))
+            if self.perrrec and r.random() < 0.3:
+                self.count("error-read-after-block")
+                return ("begin", [("begin", body, whens), ERRPRINT("after")], [])
             return ("begin", body, whens)
         if c < 0.89:
             self.count("raise")
@@ -521,6 +554,13 @@ class Gen:
         whens = []
         if r.random() < 0.3:
             whens.append((r.choice(self.EXC + ["OTHERS"]), [("return", self.expr(rt, 1, scope))]))
+        elif self.perrrec and r.random() < 0.4:
+            # a clause that fails in turn: the record of the function's (recycled) context stays set
+            self.count("function-clause-fails")
+            whens.append((r.choice(self.EXC + ["OTHERS"]), [ERRPRINT("fh"), ("raise", r.choice(self.EXC))]))
+        if self.perrrec and r.random() < 0.5:
+            self.count("function-reads-error")
+            body.insert(0, ERRPRINT("f-entry"))
         self.nvars = saved
         self.tabs_on = tabs_saved
         f = ("func", name, pnames, rt, body, whens)
